@@ -222,12 +222,16 @@ impl Interp {
         Err(Unwind::Unsupported(what.into()))
     }
 
+    fn invalid<T>(&self, what: impl Into<String>) -> R<T> {
+        Err(Unwind::Invalid(what.into()))
+    }
+
     pub fn call_fn(&self, gid: Gid, f: &goast::Fn, args: Vec<V>, depth: u32) -> R<V> {
         if depth > MAX_DEPTH {
             return self.unsupported("call depth limit");
         }
         if f.params.len() != args.len() {
-            return self.unsupported(format!("arity mismatch calling {}", f.name));
+            return self.invalid(format!("arity mismatch calling {}", f.name));
         }
         let mut fr = Frame { vars: Vec::with_capacity(16) };
         for ((n, _), v) in f.params.iter().zip(args) {
@@ -324,7 +328,7 @@ impl Interp {
                 }
                 match fr.get_mut(name) {
                     Some(slot) => *slot = v,
-                    None => return self.unsupported(format!("assignment to unknown variable {name}")),
+                    None => return self.invalid(format!("assignment to unknown variable {name}")),
                 }
                 Ok(Flow::Normal)
             }
@@ -480,7 +484,7 @@ impl Interp {
         match self.expr(gid, func, fr, depth)? {
             V::Func(n) => Ok(n.to_string()),
             V::Nil => self.fail(gid, "call of nil function"),
-            _ => self.unsupported("call of non-function value"),
+            _ => self.invalid("call of non-function value"),
         }
     }
 
@@ -495,7 +499,7 @@ impl Interp {
                 if self.prog.func(name).is_some() {
                     return Ok(V::Func(name.as_str().into()));
                 }
-                self.unsupported(format!("unknown variable {name}"))
+                self.invalid(format!("unknown variable {name}"))
             }
             Expr::Bool { value, .. } => Ok(V::Bool(*value)),
             Expr::Int { value, ty } => {
@@ -582,7 +586,7 @@ impl Interp {
                 match o {
                     V::Struct(_, fields) => match fields.iter().find(|(n, _)| &**n == field.as_str()) {
                         Some((_, v)) => Ok(v.clone()),
-                        None => self.unsupported(format!("no field {field}")),
+                        None => self.invalid(format!("no field {field}")),
                     },
                     V::Ptr(cell) => {
                         if cell.shared {
@@ -605,7 +609,7 @@ impl Interp {
                         }
                     }
                     V::Nil => self.fail(gid, "nil pointer dereference"),
-                    _ => self.unsupported("field access on non-struct"),
+                    _ => self.invalid("field access on non-struct"),
                 }
             }
             Expr::Index { array, index, .. } => {
@@ -867,7 +871,11 @@ impl Interp {
             },
             other => {
                 let _ = ty;
-                self.unsupported(format!("call of {other}"))
+                if other.contains('.') {
+                    self.unsupported(format!("call of {other}"))
+                } else {
+                    self.invalid(format!("call of undefined function {other}"))
+                }
             }
         }
     }
